@@ -1345,11 +1345,50 @@ def _module_state(tree: ast.Module) -> dict:
 
 class _Skel:
     """Statements of one function -> control-flow skeleton of SM/C17Global.v (fail-closed on statement forms)."""
-    def __init__(self, mut: set[str], loggers: set[str]) -> None:
+    def __init__(self, mut: set[str], loggers: set[str], state_funcs: dict[str, ast.FunctionDef] | None = None,
+                 state_methods: dict[str, ast.FunctionDef] | None = None, stack: tuple[str, ...] = ()) -> None:
         self.mut, self.loggers = mut, loggers
+        # functions / methods of the module that (transitively) mention a module-level mutable object: a call of one of
+        # them is not an opaque effect on the program state, it is `KCall <its skeleton>` (the global state is threaded through)
+        self.state_funcs, self.state_methods = state_funcs or {}, state_methods or {}
+        self.stack = stack
         self.n = 0
         self.global_tests: list[str] = []
         self.tainted: list[str] = []
+
+    def calls(self, *nodes: ast.AST | None) -> list[str]:
+        """`KCall` for every call of a state function inside the expressions [nodes], in source order; a state function
+        used as a value (callback, alias) is not followed: fail closed."""
+        out: list[tuple[int, int, str]] = []
+        for node in nodes:
+            if node is None:
+                continue
+            called = set()
+            for x in ast.walk(node):
+                if not isinstance(x, ast.Call):
+                    continue
+                fn = None
+                if isinstance(x.func, ast.Name) and x.func.id in self.state_funcs:
+                    fn, called = self.state_funcs[x.func.id], called | {id(x.func)}
+                    qn = x.func.id
+                elif isinstance(x.func, ast.Attribute) and x.func.attr in self.state_methods and not self.is_log_call(x) \
+                        and not self.is_self_update(x):
+                    fn, qn = self.state_methods[x.func.attr], '.' + x.func.attr
+                if fn is None:
+                    continue
+                if qn in self.stack:
+                    raise TranslateError(f'instancing.py:{x.lineno}: recursive call of `{qn}`, a function that touches module-level state')
+                sub = _Skel(self.mut, self.loggers, self.state_funcs, self.state_methods, self.stack + (qn,))
+                sub.n = self.n
+                sk = sub.block(_body(fn))
+                self.n = sub.n
+                self.global_tests += [t for t in sub.global_tests if t not in self.global_tests]
+                self.tainted += [t for t in sub.tainted if t not in self.tainted]
+                out.append((x.lineno, x.col_offset, f'(KCall {sk})'))
+            for x in ast.walk(node):
+                if isinstance(x, ast.Name) and x.id in self.state_funcs and id(x) not in called:
+                    raise TranslateError(f'instancing.py:{x.lineno}: `{x.id}` (touches module-level state) used as a value')
+        return [c for _l, _c, c in sorted(out)]
 
     def fresh(self) -> int:
         self.n += 1
@@ -1401,7 +1440,7 @@ class _Skel:
         if all(self.inert(a) or isinstance(a, ast.JoinedStr) and all(self.inert(v.value) for v in a.values if isinstance(v, ast.FormattedValue))
                or isinstance(a, ast.Attribute) and self.inert(a.value) for a in args):
             return []
-        return [self.eff()]
+        return self.calls(*args) + [self.eff()]
 
     def stmt(self, st: ast.stmt) -> str:
         if isinstance(st, ast.Expr):
@@ -1412,7 +1451,15 @@ class _Skel:
                 return self.seq(self.args_effect(v) + ['KLog'])          # what is logged may mention the global state
             if self.is_self_update(v):
                 return self.seq(self.args_effect(v) + [f'(KUpd {self.fresh()})'])
-            return self.taint(st) if self.reads(st) else self.eff()
+            if self.reads(st):
+                return self.taint(st)
+            cs = self.calls(v)
+            if cs and isinstance(v, ast.Call) and len(cs) == 1 and (
+                    isinstance(v.func, ast.Name) and v.func.id in self.state_funcs
+                    or isinstance(v.func, ast.Attribute) and v.func.attr in self.state_methods and self.inert(v.func.value)) and \
+                    all(self.inert(a) for a in list(v.args) + [k.value for k in v.keywords]):
+                return cs[0]                  # `helper(a, b)` as a statement, inert arguments: nothing but the call
+            return self.seq(cs + [self.eff()])
         if isinstance(st, (ast.Pass, ast.Global, ast.Nonlocal, ast.Import, ast.ImportFrom)):
             return 'KNil'
         if isinstance(st, (ast.FunctionDef, ast.AsyncFunctionDef, ast.ClassDef)):
@@ -1433,16 +1480,16 @@ class _Skel:
                 return self.seq(pre + [f'(KUpd {self.fresh()})'])        # G[k] = v / del G[k] / G = ... (with `global`)
             if isinstance(st, ast.AnnAssign) and st.value is None:
                 return 'KNil'
-            return self.taint(st) if self.reads(st) else self.eff()
+            return self.taint(st) if self.reads(st) else self.seq(self.calls(st) + [self.eff()])
         if isinstance(st, ast.Assert):
-            return self.taint(st) if self.reads(st) else self.eff()
+            return self.taint(st) if self.reads(st) else self.seq(self.calls(st) + [self.eff()])
         if type(st) in JUMPS:
             val = getattr(st, 'value', None) if isinstance(st, ast.Return) else getattr(st, 'exc', None) if isinstance(st, ast.Raise) else None
             pre = []
             if val is not None and self.reads(val):
                 pre = [self.taint(st)]
             elif val is not None and not self.inert(val):
-                pre = [self.eff()]
+                pre = self.calls(val) + [self.eff()]
             return self.seq(pre + [f'(KJump {JUMPS[type(st)]})'])
         if isinstance(st, ast.If):
             a, b = self.block(st.body), self.block(st.orelse)
@@ -1450,13 +1497,13 @@ class _Skel:
                 self.global_tests.append(f'line {st.lineno}: {ast.unparse(st.test)[:70]}')
                 pre = [] if self.inert(st.test) else [self.taint(st.test)]
                 return self.seq(pre + [f'(KIf (TGlobal {self.fresh()}) {a} {b})'])
-            pre = [] if self.inert(st.test) else [self.eff()]
+            pre = [] if self.inert(st.test) else self.calls(st.test) + [self.eff()]
             return self.seq(pre + [f'(KIf (TOther {self.fresh()}) {a} {b})'])
         if isinstance(st, ast.For):
             if st.orelse:
                 raise TranslateError(f'instancing.py:{st.lineno}: for/else in a function that reads module-level state')
-            head = self.taint(st.iter) if self.reads(st.iter) or self.reads(st.target) else self.eff()
-            return self.seq([head, f'(KLoop {self.fresh()} {self.block(st.body)})'])
+            head = [self.taint(st.iter)] if self.reads(st.iter) or self.reads(st.target) else self.calls(st.iter) + [self.eff()]
+            return self.seq(head + [f'(KLoop {self.fresh()} {self.block(st.body)})'])
         if isinstance(st, ast.Try):
             if st.finalbody:
                 raise TranslateError(f'instancing.py:{st.lineno}: try/finally in a function that reads module-level state')
@@ -1482,6 +1529,42 @@ def _process_state(tree: ast.Module) -> dict:
             funcs += [(f'{n.name}.{f.name}', f) for f in n.body if isinstance(f, ast.FunctionDef) and not _is_overload(f)]
     out, tests, tainted = [], [], []
     logger_misuse: list[str] = []
+    # functions that touch the module-level state, directly or through a call of such a function (fixpoint)
+    direct = {qn for qn, fn in funcs if any(isinstance(x, ast.Name) and x.id in mut for x in ast.walk(fn))}
+    state: set[str] = set(direct)
+    while True:
+        names = {qn for qn in state if '.' not in qn}
+        meths = {qn.split('.', 1)[1] for qn in state if '.' in qn}
+        more = {qn for qn, fn in funcs if qn not in state and any(
+            isinstance(x, ast.Call) and (isinstance(x.func, ast.Name) and x.func.id in names
+                                         or isinstance(x.func, ast.Attribute) and x.func.attr in meths) for x in ast.walk(fn))}
+        if not more:
+            break
+        state |= more
+    state_funcs = {qn: fn for qn, fn in funcs if qn in state and '.' not in qn}
+    state_methods: dict[str, ast.FunctionDef] = {}
+    for qn, fn in funcs:
+        if qn in state and '.' in qn:
+            m = qn.split('.', 1)[1]
+            if m in state_methods:
+                raise TranslateError(f'instancing.py: two methods named `{m}` touch module-level state (calls are resolved by name)')
+            state_methods[m] = fn
+    # other state that outlives a call: mutable default arguments, memoising decorators, function attributes
+    hidden_state: list[str] = []
+    for qn, fn in funcs:
+        for d in fn.args.defaults + [d for d in fn.args.kw_defaults if d is not None]:
+            if not _immutable_value(d) and not (isinstance(d, ast.Call) and not d.args and not d.keywords
+                                                and ast.unparse(d.func) in ('frozenset', 'tuple', 'object')):
+                if isinstance(d, (ast.List, ast.Dict, ast.Set, ast.ListComp, ast.DictComp, ast.SetComp, ast.Call)):
+                    hidden_state.append(f'{qn}: mutable default argument `{ast.unparse(d)[:40]}`')
+        for d in fn.decorator_list:
+            dn = ast.unparse(d.func if isinstance(d, ast.Call) else d).split('.')[-1]
+            if 'cache' in dn.lower() or dn in ('memoize', 'memoise', 'singledispatch'):
+                hidden_state.append(f'{qn}: decorator `{dn}`')
+    fnames = {qn for qn, _ in funcs if '.' not in qn}
+    for x in ast.walk(tree):
+        if isinstance(x, ast.Attribute) and isinstance(x.ctx, (ast.Store, ast.Del)) and isinstance(x.value, ast.Name) and x.value.id in fnames:
+            hidden_state.append(f'line {x.lineno}: function attribute `{ast.unparse(x)}` is assigned')
     for qn, fn in funcs:
         # the logger is process-global too: anything but `LOGGER.<level>(...)` as a statement would be a read of its configuration
         stmt_calls = {id(st.value.func.value) for st in ast.walk(fn) if isinstance(st, ast.Expr) and isinstance(st.value, ast.Call)
@@ -1489,19 +1572,19 @@ def _process_state(tree: ast.Module) -> dict:
         for x in ast.walk(fn):
             if isinstance(x, ast.Name) and x.id in loggers and id(x) not in stmt_calls:
                 logger_misuse.append(f'{qn} line {x.lineno}')
-        if qn != 'collapse_one' and not any(isinstance(x, ast.Name) and x.id in mut for x in ast.walk(fn)):
+        if qn != 'collapse_one' and qn not in state:
             continue
         if any(a.arg in mut for a in fn.args.args + fn.args.kwonlyargs) or \
                 any(isinstance(x, ast.Name) and isinstance(x.ctx, ast.Store) and x.id in mut for x in ast.walk(fn)
                     if not any(isinstance(g, ast.Global) and x.id in g.names for g in ast.walk(fn))):
             raise TranslateError(f'instancing.py: {qn} shadows a module-level name')
-        K = _Skel(mut, loggers)
+        K = _Skel(mut, loggers, state_funcs, state_methods, (qn if '.' not in qn else '.' + qn.split('.', 1)[1],))
         sk = K.block(_body(fn))
         out.append((qn, sk))
         tests += [f'{qn} {t}' for t in K.global_tests]
         tainted += [f'{qn} {t}' for t in K.tainted]
     return {'module_level': ms['names'], 'class_level': ms['class_level'], 'functions': out, 'global_tests': tests, 'tainted': tainted,
-            'logger_misuse': logger_misuse}
+            'logger_misuse': logger_misuse, 'hidden_state': hidden_state, 'calls_inlined': sum(sk.count('(KCall ') for _q, sk in out)}
 
 
 # ---------------------------------------------------------------------------------------------- visible objects, ID maps
@@ -1850,7 +1933,7 @@ def translate() -> tuple[str, dict]:
     side['process_state']['functions'] = [qn for qn, _ in ps['functions']]
     E.lines.append('Definition g_process_state_functions : list (list N * skel) := [\n  ' +
                    ';\n  '.join(f'({_coq_codes(qn)}, {sk})' for qn, sk in ps['functions']) + '].')
-    E.lines.append(f'Definition g_module_state_untracked : nat := {len(ps["class_level"]) + len(ps["logger_misuse"])}.')
+    E.lines.append(f'Definition g_module_state_untracked : nat := {len(ps["class_level"]) + len(ps["logger_misuse"]) + len(ps["hidden_state"])}.')
 
     # collapse_all loop shape
     shape = _collapse_all_shape(_find_func(itree, 'collapse_all'), itree)
